@@ -176,6 +176,9 @@ def run(ctx: core.Ctx) -> int:
                           for f_, b_ in (("cross", "nosuch"), ("crossover", "close"), ("crossunder", "nosuch"))]
             templates += [{"kind": "STDEV", "kw": {"period": 5, "input_value": "nosuch"}, "round_value": 4},
                           {"kind": "SMA", "kw": {"period": 5, "input_value": "nosuch"}, "round_value": 4}]
+            # the candle patterns with a look-back: the window is `lookback` candles, whatever the history
+            templates += [{"kind": "AMORPH", "analysis": {"f": f_, "lookback": 5}, "kw": {}, "round_value": 4}
+                          for f_ in ("doji", "dojistar", "hammer", "inverted_hammer")]
             specs = [templates[(k // 3) % len(templates)]]
             kind = "always-None"
         base = X.gen_rows(rng, 2 * max(sizes), regime="walk", late=0)
